@@ -2,9 +2,9 @@
 import market_checks
 
 PROP = "C03"
-LEAN_MODULES = ["PamsProps.C03"]
-NAMESPACES = ["Pams.C03"]
-DRIVERS = ["Market"]
+LEAN_MODULES = ["PamsProps.C03", "PamsProps.SimE2E"]
+NAMESPACES = ["Pams.C03", "Pams.C03"]      # second: the end-to-end theorems of PamsProps/SimE2E.lean in the same namespace
+DRIVERS = ["Market", "Sim"]
 TRUSTED = [
     "modelled, not verified: heapq (abstracted to the sorted list; pop order compared on every state), Order.__eq__-based list.remove, IEEE doubles used only through <,== (monotone integer keys)",
     "generators/abstraction in harness/impl_market.py",
@@ -20,7 +20,10 @@ def search(ctx, res):
     # extended failing-input search with the model-independent monitor: fresh cases, no Lean
     ctx2 = type(ctx)(ctx.prop, ctx.tier, ctx.seed + 1)
     ctx2.scale = ctx.scale
-    r = market_checks.run_market_property(ctx2, PROP, n_quick=3000, model_available=False, sweep_share=0.6)
+    from impl_market import small_scope_market_orders
+    r = market_checks.run_market_property(ctx2, PROP, n_quick=2500, model_available=False, sweep_share=0.4,
+                                           focus=("mkt2", 0.7),
+                                           extra_gen=lambda rng: small_scope_market_orders(4))
     res["search_note"] = "extended search: %d further histories, %d monitor checks, no failing input" % (
         r["evaluations"], r["monitor_checks"])
     return r["violations"]
